@@ -178,7 +178,7 @@ def common_alphabet_rule(ctx, rule):
             if k_keep not in w.conds:
                 bad.append(f"keeps `{cand}` without `{cand}.extends({item})`")
         else:
-            bad.append(f"does {w.updates}")
+            ctx.cannot_decide(False, f"common_alphabet: a way through the loop does {list(w.updates)} - not one of the steps this rule reads (keep, take the next alphabet, give up)")
     ctx.ob(rule, ALPH, "common_alphabet", f"kept under {cand}.extends({item}), replaced under {item}.extends({cand})", not bad,
            "a way through the loop " + "; ".join(bad) + ": the answer need not extend every alphabet of the list (codes of the others would "
            "be read as other symbols)", lp.lineno)
